@@ -77,11 +77,14 @@ def check(facts):
         arms = {}
         for a in m["arms"]:
             p = a["pat"]
-            if p.get("k") != "tuple" or len(p.get("pats", [])) != 2:
-                r.fail("%s arm line %s" % (fn, a.get("line")), "arm pattern is not a pair", facts.loc(fn, a.get("line")))
-                continue
-            sh = (pat_shape(p["pats"][0]), pat_shape(p["pats"][1]))
-            arms.setdefault(sh, a)
+            alts = p.get("pats", []) if p.get("k") == "or" else [p]
+            for alt in alts:
+                if alt.get("k") != "tuple" or len(alt.get("pats", [])) != 2:
+                    r.fail("%s arm line %s" % (fn, a.get("line")), "arm pattern is not a pair", facts.loc(fn, a.get("line")))
+                    continue
+                sh = (pat_shape(alt["pats"][0]), pat_shape(alt["pats"][1]))
+                # an or-pattern arm `(A(x), B(y)) | (B(y), A(x))` serves both orders with one body: each alternative is an arm of its own
+                arms.setdefault(sh, {"pat": alt, "body": a["body"], "line": a.get("line")})
         for sh, a in sorted(arms.items()):
             if sh[0] == sh[1] or sh > (sh[1], sh[0]):
                 continue
